@@ -30,6 +30,7 @@ RULE = ('random single assemblies (2-7 rings, 1-3 ducts, flowing/stagnant '
         '7-position cores with gap flow fraction 1e-3..0.2; operators probed '
         'at inlet, middle and outlet states; non-trivial when >= 50 operator '
         'rows were probed; distinct by (rings, ducts, gap, options)')
+RULE += (' Later rounds added kinds sevenpin (two-ring bundles at low flow), lfcore (driver among starved low-fidelity assemblies with six-node regions, every assembly and every region probed), ptol (param_update_tol > 0: requirement only), and power written as distribution x scaling factor.')
 DECIDING = ['W_nonneg_weights', 'W_row_sums_one', 'M_zero_power_stays_inlet']
 CASE_TIMEOUT = {'quick': 240, 'thorough': 900}
 BUDGET = {'quick': 800, 'thorough': 3300}
